@@ -23,6 +23,11 @@ var c27Timer = &evalTimer{}
 
 const c27MinValidatorStake = 1_000_000 // nodesTypes.DefaultMinStake: Params.Validate rejects a lower StakeMinimum
 
+// c27CollapseBin only NAMES a violation (known finding: ApproxRoot(100) overflows for bases >= 499 and FracPow then
+// returns 1): a decrease is given the "weight-collapses" signature only when the too-small value sits in a bin
+// >= 499 AND equals what the implementation yields in bin 1. Any other decrease keeps the generic signature.
+const c27CollapseBin = 499
+
 type c27Cfg struct {
 	rscal     bool
 	floor     int64 // ServicerStakeFloorMultiplier (bin width)
@@ -208,12 +213,18 @@ func (e *c27Eval) relations(stakes []int64) {
 				for ci := 0; ci < 2; ci++ {
 					switch cmp := v[ci].Cmp(atCeil[ci]); {
 					case cmp < 0:
-						c.Violation("C27/"+e.fn+"/above-ceiling-less-than-at-ceiling",
+						// narrow name for the one known shape: the stake is past the ceiling and its remainder modulo the
+						// floor exceeds the ceiling's remainder (the ceiling term is then floored one bin too low)
+						sig := "C27/" + e.fn + "/above-ceiling-less-than-at-ceiling"
+						if !(s%p.floor > p.ceiling%p.floor) {
+							sig = "C27/" + e.fn + "/above-ceiling-less-than-at-ceiling-without-excess-remainder"
+						}
+						c.Violation(sig,
 							"%s(stake=%d, %s=%d) = %s but at the ceiling stake %d it is %s (stake mod floor = %d, ceiling mod floor = %d) under %s",
 							e.fn, s, unit, e.counts[ci], v[ci], p.ceiling, atCeil[ci], s%p.floor, p.ceiling%p.floor, p)
 					case cmp > 0:
 						sig := "C27/" + e.fn + "/above-ceiling-more-than-at-ceiling"
-						if p.effBin(p.ceiling) >= 2 && e.collapsed != nil {
+						if p.effBin(p.ceiling) >= c27CollapseBin && e.collapsed != nil {
 							// the value AT the ceiling is the one that is too small (it equals the bin-1 value)
 							if col := e.collapsed(ci); col != nil && col.Cmp(atCeil[ci]) == 0 {
 								sig = "C27/" + e.fn + "/weight-collapses-to-bin-1-value-at-high-bin"
@@ -233,7 +244,7 @@ func (e *c27Eval) relations(stakes []int64) {
 			for ci := 0; ci < 2; ci++ {
 				if pv[ci].Cmp(v[ci]) > 0 {
 					sig := "C27/" + e.fn + "/decreases-with-stake"
-					if p.effBin(s) >= 2 && e.collapsed != nil {
+					if p.effBin(s) >= c27CollapseBin && e.collapsed != nil {
 						if col := e.collapsed(ci); col != nil && col.Cmp(v[ci]) == 0 {
 							sig = "C27/" + e.fn + "/weight-collapses-to-bin-1-value-at-high-bin"
 						}
